@@ -116,7 +116,8 @@ class Norm:
             a, b = self.N(t[2], sub), self.N(t[3], sub)
             if a == b:
                 return a
-            if self.is_coll(a) or self.is_coll(b):
+            strong = ("bag", "valof", "getempty", "keys")
+            if (a[0] in strong or b[0] in strong) and self.is_coll(a) and self.is_coll(b):
                 return self.bag(("ite", t[1], t[2], t[3]), sub)
             return ("ite", c, a, b)
         if tag in ("coll", "wrap", "setop", "concat", "keys", "values", "items", "flatten", "enumerate", "splatted"):
@@ -256,6 +257,8 @@ class Norm:
             a = [(e, f, cs + [n[1]]) for e, f, cs in self.gens_nf(n[2])]
             b = [(e, f, cs + [c_not(n[1])]) for e, f, cs in self.gens_nf(n[3])]
             return a + b
+        if n[0] == "getempty":
+            return [(e, f, cs + [self.member(n[2], ("keys", n[1]))]) for e, f, cs in self.atomic(("valof", n[1], n[2]))]
         if n[0] in ("const",) and n[1] is None:
             self.opaque.append("iteration over None")
         if n[0] in ("tuple",):
@@ -341,7 +344,7 @@ class Norm:
                     for e2, f2, cs2 in self.gens(it, s):
                         s2 = dict(s)
                         s2[var] = e2
-                        extra = [("cut-short", loopid)] if loopid in self.cut_loops else []
+                        extra = [("cut-short",)] if loopid in self.cut_loops else []
                         nxt.append((s2, f + f2, cs + cs2 + extra))
             states = nxt
         out = []
@@ -355,6 +358,16 @@ class Norm:
 
     def member(self, x, coll):
         """Condition `x in coll` for a normalised collection."""
+        if x[0] == "ite":
+            return c_or([c_and([x[1], self.member(x[2], coll)]), c_and([c_not(x[1]), self.member(x[3], coll)])])
+        if coll[0] == "ite":
+            return c_or([c_and([coll[1], self.member(x, coll[2])]), c_and([c_not(coll[1]), self.member(x, coll[3])])])
+        if coll[0] == "getempty":
+            return c_and([self.member(coll[2], ("keys", coll[1])), ("in", x, ("valof", coll[1], coll[2]))])
+        if coll[0] == "sym" and coll[1] in self.dict_syms:
+            coll = ("keys", coll)
+        if coll[0] == "keys" and x[0] == "var" and self.keyvars.get(x) == coll[1]:
+            return TRUE
         if coll[0] == "bag":
             alts = []
             for g in coll[1]:
@@ -367,8 +380,6 @@ class Norm:
                 else:
                     return ("in", x, coll)
             return c_or(alts)
-        if coll[0] == "sym" and coll[1] in self.dict_syms:
-            coll = ("keys", coll)
         return ("in", x, coll)
 
     @staticmethod
@@ -395,6 +406,12 @@ class Norm:
         if tag == "in":
             coll = self.N(c[2], sub)
             return self.member(self.N(c[1], sub), coll)
+        if tag in ("cmp", "is"):
+            ops = [self.N(x, sub) for x in (c[2:4] if tag == "cmp" else c[1:3])]
+            for i, o in enumerate(ops):
+                if o[0] == "ite":
+                    mk = lambda v: (("cmp", c[1], v, ops[1]) if i == 0 else ("cmp", c[1], ops[0], v)) if tag == "cmp" else (("is", v, ops[1]) if i == 0 else ("is", ops[0], v))  # noqa: E731,B023
+                    return c_or([c_and([o[1], self.cond(mk(o[2]), {})]), c_and([c_not(o[1]), self.cond(mk(o[3]), {})])])
         if tag == "cmp":
             a, b = self.N(c[2], sub), self.N(c[3], sub)
             if c[1] == "==":
@@ -409,6 +426,8 @@ class Norm:
             for x, y in ((a, b), (b, a)):
                 if y == NONE and x[0] in ("bag", "fstr", "inst", "fluent", "tuple", "stage"):
                     return FALSE
+                if y == NONE and rooted_at_caught(x):
+                    return FALSE  # the message of a caught AssertionError is a string
             return ("is", a, b)
         if tag in ("any", "all"):
             n = self.N(c[1], sub)
@@ -477,6 +496,12 @@ class Norm:
         if key in self.assume:
             return ("const", self.assume[key])
         return c
+
+
+def rooted_at_caught(x) -> bool:
+    while isinstance(x, tuple) and x and x[0] in ("index", "attr", "str"):
+        x = x[1]
+    return isinstance(x, tuple) and bool(x) and x[0] == "caught"
 
 
 # ---------------------------------------------------------------------- substitution on normal forms
